@@ -54,7 +54,7 @@ pub fn run(ctx: &mut Ctx, toks: &[&str]) -> String {
         c.map = RawMap::open(&path, 72);
     }
     let rec = match variant {
-        1 if c.last.0 >= 0 => (c.last.0, c.last.1 + 1),
+        1 if c.last.0 >= 0 => (c.last.0, (c.last.1 + 1) % 3),
         2 if c.last.0 >= 0 => c.last,
         _ => (g as i64 + if c.last.0 == g as i64 { 100000 } else { 0 }, 0),
     };
